@@ -355,15 +355,6 @@ fn main() {
         }
     }
     run.add("table_entries", inputs.len() as u64);
-    {
-        let mut kinked = vec![];
-        let mut seen = std::collections::BTreeSet::new();
-        for s in inputs.iter().filter(|s| s.d.n <= if th { 6 } else { 4 }) {
-            kinked_inputs(s, &mut kinked, &mut seen);
-        }
-        run.add("kinked_inputs", kinked.len() as u64);
-        inputs.extend(kinked);
-    }
     // generated: every 1-component planar diagram, renumbered along the knot from every start
     let nmax = if th { 4 } else { 3 };
     for (name, d) in planar_family(nmax) {
@@ -384,6 +375,17 @@ fn main() {
                 inputs.push(s);
             }
         }
+    }
+    // kinked table entries last: they are the most expensive inputs (two more crossings each), the
+    // exhaustive small diagrams must not lose their share of the wall budget to them
+    {
+        let mut kinked = vec![];
+        let mut seen = std::collections::BTreeSet::new();
+        for s in inputs.iter().filter(|s| s.name.contains("table:") && s.d.n <= if th { 5 } else { 4 }) {
+            kinked_inputs(s, &mut kinked, &mut seen);
+        }
+        run.add("kinked_inputs", kinked.len() as u64);
+        inputs.extend(kinked);
     }
     run.add("symmetric_inputs", inputs.len() as u64);
     run.par_for(inputs.len(), |i| {
